@@ -44,6 +44,9 @@ type CoverWitness struct {
 	Inputs map[string]uint64 `json:"inputs"`
 	Order  []string          `json:"order"`
 	Replayed string          `json:"replayed,omitempty"`
+	// Abstract: the witness path went through an over-approximating model (abstract header
+	// decode); it is replaced as soon as a path without one reaches the same cover.
+	Abstract bool `json:"abstract,omitempty"`
 }
 
 type Harness struct {
@@ -202,6 +205,7 @@ func (ex *Exec) runPath(r *Runner, h *Harness, prefix []decision) {
 	ex.tagCount = map[string]int{}
 	ex.onceDone = map[*Cell]bool{}
 	ex.pools = map[*Cell][]Value{}
+	ex.abstracted = false
 	ex.condWaiters = map[*Cell][]*gor{}
 	ex.newScheduler()
 	q0, t0 := ex.solver.Queries, ex.solver.Time
@@ -860,9 +864,9 @@ func (ex *Exec) reportPanic(r *Runner, h *Harness, p *goPanic) {
 func (ex *Exec) coverCheck(h *Harness, tag string, cond *Term) {
 	h.mu.Lock()
 	h.CoverTags[tag] = true
-	_, have := h.Covers[tag]
+	old, have := h.Covers[tag]
 	h.mu.Unlock()
-	if have || cond.IsFalse() {
+	if (have && (!old.Abstract || ex.abstracted)) || cond.IsFalse() {
 		return
 	}
 	res, m := ex.check(cond, true)
@@ -870,8 +874,8 @@ func (ex *Exec) coverCheck(h *Harness, tag string, cond *Term) {
 		m = ex.realize(cond, m)
 		in, order := ex.modelInputs(m)
 		h.mu.Lock()
-		if _, have := h.Covers[tag]; !have {
-			h.Covers[tag] = &CoverWitness{Tag: tag, Inputs: in, Order: order}
+		if old, have := h.Covers[tag]; !have || (old.Abstract && !ex.abstracted) {
+			h.Covers[tag] = &CoverWitness{Tag: tag, Inputs: in, Order: order, Abstract: ex.abstracted}
 		}
 		h.mu.Unlock()
 	}
